@@ -413,3 +413,68 @@ Proof.
   - vm_compute. intros H. inversion H as [|? ? Hx Hr]; subst. inversion Hr as [|? ? Hy Hr2]; subst.
     inversion Hr2 as [|? ? Hz Hr3]; subst. apply Hx. cbn. auto.
 Qed.
+
+(* ================================================================== regenerated from the source (translator unit `io`)
+   Gen/IoGen.v is produced on every run by translator/unit_io.py from the current text of amaranth/lib/io.py
+   (Direction.__and__; __init__ / __len__ / __invert__ / __getitem__ (int and slice key) / __add__ of SingleEndedPort,
+   DifferentialPort and SimulationPort; the direction and domain checks of Buffer.__init__ / FFBuffer.__init__);
+   the port algebra and the construction checks every theorem above talks about are these, for all ports, keys,
+   directions and domains. *)
+From V.Gen Require IoGen.
+From V.Proofs Require GenEqIo.
+
+Theorem C18_translated_dir_and a b : IoGen.g_dir_and a b = dir_and a b.
+Proof. exact (GenEqIo.gen_dir_and_eq a b). Qed.
+Print Assumptions C18_translated_dir_and.
+
+Theorem C18_translated_single_init io inv d :
+  IoGen.g_single_init io inv d = mk_single io (norm_inv (length io) inv) d.
+Proof. exact (GenEqIo.gen_single_init_eq io inv d). Qed.
+Print Assumptions C18_translated_single_init.
+
+Theorem C18_translated_diff_init p n inv d :
+  IoGen.g_diff_init p n inv d = mk_diff p n (norm_inv (length p) inv) d.
+Proof. exact (GenEqIo.gen_diff_init_eq p n inv d). Qed.
+Print Assumptions C18_translated_diff_init.
+
+Theorem C18_translated_sim_init b d (w : nat) inv :
+  IoGen.g_sim_init b d (Z.of_nat w) inv = mk_sim b d w (norm_inv w inv).
+Proof. exact (GenEqIo.gen_sim_init_eq b d w inv). Qed.
+Print Assumptions C18_translated_sim_init.
+
+Theorem C18_translated_port_len p : IoGen.g_port_len p = Ok (plen p).
+Proof. exact (GenEqIo.gen_port_len_eq p). Qed.
+Print Assumptions C18_translated_port_len.
+
+Theorem C18_translated_port_invert p : IoGen.g_port_invert p = port_invert p.
+Proof. exact (GenEqIo.gen_port_invert_eq p). Qed.
+Print Assumptions C18_translated_port_invert.
+
+Theorem C18_translated_port_index p i : IoGen.g_port_index p i = port_index p i.
+Proof. exact (GenEqIo.gen_port_index_eq p i). Qed.
+Print Assumptions C18_translated_port_index.
+
+Theorem C18_translated_port_slice p k : IoGen.g_port_slice p k = port_slice p k.
+Proof. exact (GenEqIo.gen_port_slice_eq p k). Qed.
+Print Assumptions C18_translated_port_slice.
+
+Theorem C18_translated_port_add p q : IoGen.g_port_add p q = port_add p q.
+Proof. exact (GenEqIo.gen_port_add_eq p q). Qed.
+Print Assumptions C18_translated_port_add.
+
+Theorem C18_translated_peval env e : GenEqIo.g_peval env e = peval env e.
+Proof. exact (GenEqIo.gen_peval_eq env e). Qed.
+Print Assumptions C18_translated_peval.
+
+Theorem C18_translated_buffer_init bd p : IoGen.g_buffer_init bd p = buffer_check bd (p_dir p).
+Proof. exact (GenEqIo.gen_buffer_init_eq bd p). Qed.
+Print Assumptions C18_translated_buffer_init.
+
+Theorem C18_translated_ffbuffer_init bd p idom odom :
+  IoGen.g_ffbuffer_init bd p idom odom = ffbuffer_init bd (p_dir p) idom odom.
+Proof. exact (GenEqIo.gen_ffbuffer_init_eq bd p idom odom). Qed.
+Print Assumptions C18_translated_ffbuffer_init.
+
+Theorem C18_translated_buffer_invert p : IoGen.g_buffer_invert p = inv_mask (p_inv p).
+Proof. exact (GenEqIo.gen_buffer_invert_eq p). Qed.
+Print Assumptions C18_translated_buffer_invert.
